@@ -2,6 +2,7 @@
 import os
 import itertools
 
+from .. import fscommon as FC
 from ..runner import Outcome, HarnessError
 from .. import ast as A, ref as R, names as N, lang, util
 from ..util import F, G, WM
@@ -294,8 +295,7 @@ def run_fs(desc):
               G.NOUNIQUE, G.FOLLOW]
     wflags = [WM.RECURSIVE, WM.HIDDEN, WM.SYMLINKS, WM.FILEPATHNAME, WM.DIRPATHNAME, WM.MATCHBASE, WM.GLOBSTAR, WM.EXTMATCH, WM.IGNORECASE]
     for ti, spec in enumerate(FS_TREES):
-        with util.temp_root() as root:
-            util.build_tree(root, spec)
+        with FC.built_tree(spec) as (root, _removed):      # deep sandbox: `..` segments of generated patterns stay inside it
             broot = os.fsencode(root)
 
             @seed(desc['seed'] + ti)
@@ -374,8 +374,7 @@ def replay(case):
         r = run_mixed({})
         return (not r.violations), [v[2] for v in r.violations][:3]
     if m == 'fs':
-        with util.temp_root() as root:
-            util.build_tree(root, FS_TREES[case['tree']])
+        with FC.built_tree(FS_TREES[case['tree']]) as (root, _removed):
             broot = os.fsencode(root)
             if case['api'] == 'WcMatch':
                 a = WM.WcMatch(root, case['pattern'], 'e', flags=case['flags']).match()
